@@ -26,8 +26,10 @@ M = [
     ("C01-m1", "C01", "liquid/builtin/tags/case_tag.py", r"(await self\.block\.render_async\(context, buffer\)\n\s+for _ in range\()matches\.count\(True\)", r"\g<1>1", "async case renders a when block once even if several of its values match"),
     ("C01-m2", "C01", "liquid/builtin/expressions/filtered.py", r"(rv = await self\.alternative\.evaluate_async\(context\)\n\s+if )self\.filters:", r"\g<1>False:", "async ternary drops the alternative's filters"),
     ("C02-m1", "C02", "liquid/template.py", r"except Exception as err:  # noqa: BLE001\n(\s+)# Like `Environment\.from_string`", r"except ArithmeticError as err:  # noqa: BLE001\n\1# Like `Environment.from_string`", "render-time containment only for arithmetic errors"),
-    ("C02-m2", "C02", "liquid/environment.py", r'except Exception as err:  # noqa: BLE001\n(\s+)raise LiquidError\("unexpected liquid parsing error"', r'except ValueError as err:  # noqa: BLE001\n\1raise LiquidError("unexpected liquid parsing error"', "parse-time containment only for ValueError"),
-    ("C03-m1", "C03", "liquid/builtin/tags/if_tag.py", r"except LiquidSyntaxError as err:\n(\s+)self\.env\.error\(err\)", r"except LiquidSyntaxError as err:\n\1raise", "if tag raises for a bad elsif expression in every mode"),
+    ("C02-m2", "C02", "liquid/template.py", r"(await node\.render_async\(context, buffer\)(?:.|\n)*?)except Exception as err:  # noqa: BLE001", r"\1except ArithmeticError as err:  # noqa: BLE001", "async render-time containment only for arithmetic errors"),
+    ("C02-m3", "C02", "liquid/environment.py", r'except Exception as err:  # noqa: BLE001\n(\s+)raise LiquidError\("unexpected liquid parsing error"', r'except ValueError as err:  # noqa: BLE001\n\1raise LiquidError("unexpected liquid parsing error"', "parse-time containment only for ValueError (equivalent on this tree unless some parse path raises another exception type)"),
+    ("C03-m1", "C03", "liquid/template.py", r"(# Raise or warn according to the current mode\.\n\s+)self\.env\.error\(err, token=node\.token\)", r"\1raise", "render errors are raised in every mode"),
+    ("C03-m3", "C03", "liquid/builtin/tags/if_tag.py", r"except LiquidSyntaxError as err:\n(\s+)self\.env\.error\(err\)", r"except LiquidSyntaxError as err:\n\1raise", "if tag re-raises a bad elsif expression (equivalent: Tag.get_node applies the mode one level up)"),
     ("C03-m2", "C03", "liquid/environment.py", r"if self\.mode == Mode\.WARN:", "if False:", "warn mode reports nothing"),
     ("C04-m1", "C04", "liquid/builtin/expressions/path.py", r'buf = \[f"\[\{root\}\]"\]', 'buf = [f"{root}"]', "Path.__str__ drops the brackets of a nested root"),
     ("C04-m2", "C04", "liquid/builtin/tags/for_tag.py", r'(def __str__\(self\) -> str:\n(?:.*\n)*?.*)\{% else %\}', r"\1{% elsif %}", "ForNode.__str__ prints else as elsif"),
